@@ -6,7 +6,9 @@ receiver), generic calls whose type parameter occurs only in the result,
 uninformative arguments (untyped bottom, lambda), generic constructors whose
 declared type argument is a supertype of what the arguments suggest,
 reassigned variables with a declared supertype (local, and top-level ones
-assigned by a later function), chains of variables.
+assigned by a later function), chains of variables, functions declared inside
+functions (0-5 parameters, optionally a trailing vararg called with 0-3
+variadic values), generic calls with explicit but inferable type arguments.
 Programs are built with the same constructors and Context registrations the
 generator uses; each is first checked by the reference checker (a program it
 rejects is discarded and counted)."""
@@ -92,7 +94,8 @@ def programs(draw, lang):
     from src.ir import ast, types as tp
     b = Builder(lang)
     units = draw(st.lists(st.sampled_from(['recursive', 'recursive', 'ret-only-generic', 'ret-only-generic', 'box', 'reassigned',
-                                           'chain', 'lambda-arg', 'phantom', 'global-reassigned']), min_size=1, max_size=4))
+                                           'chain', 'lambda-arg', 'phantom', 'global-reassigned', 'nested-func', 'nested-func',
+                                           'generic-call']), min_size=1, max_size=4))
     labels = []
     for u in units:
         if u == 'recursive':
@@ -144,6 +147,51 @@ def programs(draw, lang):
             uses = draw(st.sampled_from(['return-var', 'pass-on']))
             b.func(b.G, uname, [], want, ast.Block([v, ast.Variable(vname)]))
             labels.append('ret-only-generic/%s' % argk)
+        elif u == 'nested-func':
+            # a function declared inside a function (Java/Groovy: a lambda held in a FunctionN variable)
+            oname, iname = b.name('outer'), b.name('inner')
+            nfixed = draw(st.integers(0, 5))
+            vararg = draw(st.booleans())
+            ret = draw(st.sampled_from([b.string(), b.integer()]))
+            params, args = [], []
+            for j in range(nfixed):
+                pt = draw(st.sampled_from([b.string(), b.integer()]))
+                params.append(ast.ParameterDeclaration(b.name('q'), pt))
+                args.append(ast.CallArgument(ast.StringConstant('a%d' % b.n) if pt == b.string()
+                                             else ast.IntegerConstant(100 + b.n, b.integer())))
+            nvar = 0
+            if vararg:
+                if lang == 'kotlin':
+                    from src.ir import kotlin_types as kt
+                    vt = kt.IntegerArray
+                elif lang == 'scala':
+                    from src.ir import scala_types as sc
+                    vt = sc.Seq.new([b.integer()])
+                else:
+                    vt = b.f.get_array_type().new([b.integer()])
+                params.append(ast.ParameterDeclaration(b.name('vs'), vt, vararg=True))
+                nvar = draw(st.integers(0, 3))
+                for j in range(nvar):
+                    b.n += 1
+                    args.append(ast.CallArgument(ast.IntegerConstant(200 + b.n, b.integer())))
+            block = draw(st.booleans())
+            ibody = b.const(ret)
+            inner = b.func(b.G + (oname,), iname, params, ret, ast.Block([ibody]) if block else ibody)
+            call = ast.FunctionCall(iname, args)
+            b.func(b.G, oname, [], ret, ast.Block([inner, call]))
+            labels.append('nested-func/%d%s/%s' % (nfixed, '+vararg%d' % nvar if vararg else '', 'block' if block else 'expression'))
+        elif u == 'generic-call':
+            # explicit type argument that the argument determines (erasable, and a site TypeOverwriting can pick)
+            T = tp.TypeParameter('I%d' % b.n)
+            iname = b.name('ident')
+            par = ast.ParameterDeclaration(b.name('x'), T)
+            b.func(b.G, iname, [par], T, ast.Variable(par.name), type_params=[T])
+            want = draw(st.sampled_from([b.string(), b.integer()]))
+            call = ast.FunctionCall(iname, [ast.CallArgument(b.const(want))], type_args=[want])
+            vname = b.name('r')
+            v = ast.VariableDeclaration(vname, call, is_final=True, var_type=want)
+            b.func(b.G, b.name('useid'), [], want, ast.Block([v, ast.Variable(vname)]))
+            labels.append('generic-call')
         elif u == 'box':
             T = tp.TypeParameter('B%d' % b.n)
             cname = b.name('Box')
